@@ -323,7 +323,7 @@ func ChanT(dir int, e *Ty) *Ty {
 	if dir == 0 {
 		c, src = pre+elC, pre+elS
 	}
-	g := fmt.Sprintf("lwG[%s](func(r *lwRand, nn bool) %s { if !nn && r.n(4) == 0 { return nil }; return make(chan %s, 1) })", c, c, elC)
+	g := fmt.Sprintf("lwG[%s](func(r *lwRand, nn bool) %s { switch e := r.at(); { case e == 1: return nil; case e > 1: return make(chan %s, 1) }; if !nn && r.n(4) == 0 { return nil }; return make(chan %s, 1) })", c, c, elC, elC)
 	t := &Ty{FK: "chan", Src: src, Conc: c, Gen: g, Cmp: true, TagRule: "omit"}
 	return t.merge(e)
 }
